@@ -1044,7 +1044,7 @@ def model_search(rng, tier):
     from harness import core
     cand = gen_internal("quick")[:400] + gen_external("quick")[:600] + gen_random(rng, "quick")
     terms = ["c46_holds_b %s %s" % (qz(c["bs"]), ql(c["docs"], qdoc)) for c in cand]
-    ok, bad, _ = core.eval_cases_in_coq("C46search", COQ_IMPORTS, terms)
+    ok, bad, _ = core.eval_cases_in_coq("C46search", __getattr__("COQ_IMPORTS"), terms)
     if ok and bad:
         return cand[bad[0]]
     return None
